@@ -324,6 +324,8 @@ def main():
     # evidence files describe /repo itself; a run against a scratch copy (VERIF_REPO, used for seeded changes and proposed
     # repairs) must never overwrite them
     ev_dir = C.VERIF / 'evidence' if str(C.REPO.resolve()) == '/repo' else C.VERIF / 'build' / 'evidence-scratch'
+    if os.environ.get('VERIF_EVIDENCE_DIR'):          # robustness sweeps with other seeds keep their evidence apart
+        ev_dir = C.Path(os.environ['VERIF_EVIDENCE_DIR']) if hasattr(C, 'Path') else __import__('pathlib').Path(os.environ['VERIF_EVIDENCE_DIR'])
     ev_dir.mkdir(parents=True, exist_ok=True)
     (ev_dir / ('%s.json' % pid)).write_text(json.dumps(ev, indent=1))
     print('%s tier=%s seed=%d: %d/%d theorems closed; %d cases (%d corpus), %d compared in Coq, %d mismatches, %d oracle failures, %d known findings; %.1fs'
